@@ -4,7 +4,7 @@ package main
 
 // C31: index directory operations are mutually exclusive.
 //
-// Two halves, one Case type.
+// Three parts, one Case type.
 //
 // "sched" (deterministic): the harness owns the schedule. A case is a list of
 // operations (With(name) / Global) and a list of steps ("start the next
@@ -23,6 +23,18 @@ package main
 // "stress": the same operations spread over free-running goroutines (bodies
 // yield instead of blocking), occupancy checked with atomics. Scheduling is the
 // Go runtime's; together with -race this half looks for races and crashes.
+//
+// "site" (deterministic, a fraction of the cases): the same harness-owned
+// schedule, but the global operations are the Server's own call sites -
+// Server.doMerge, Server.vacuum and Server.DeleteAllData on a Server whose index
+// directory holds generated shards - mixed with With(name) and plain Global
+// operations on the same Server.muIndexDir. Their work on the index directory
+// is done by the `zoekt-merge-index` command; the harness puts a stand-in for
+// that command first in PATH which reports "started" / "finished" over a FIFO
+// and does nothing until the harness lets it continue. A command that runs is a
+// critical section of a global operation: nothing else may be inside its
+// critical section between the command's start and its end
+// (zz_verif_c31_site_test.go).
 
 import (
 	"bytes"
@@ -46,10 +58,14 @@ import (
 type c31Op struct {
 	Global bool   `json:",omitempty"`
 	Name   string `json:",omitempty"`
+	// site mode only: "merge" (Server.doMerge), "vacuum" (Server.vacuum),
+	// "delete" (Server.DeleteAllData): a global operation run through the
+	// Server's own call site.
+	Site string `json:",omitempty"`
 }
 
 type c31Case struct {
-	Mode string // "sched" | "stress"
+	Mode string // "sched" | "stress" | "site"
 	Ops  []c31Op
 	// sched: -1 = start the next operation; k >= 0 = let the (k mod n)-th of
 	// the n bodies currently running (ordered by operation index) return.
@@ -58,11 +74,18 @@ type c31Case struct {
 	// and how often a body yields.
 	Workers int `json:",omitempty"`
 	Yields  int `json:",omitempty"`
+	// site: what the index directory holds and how the Server is configured;
+	// Fail[i mod len]: the i-th run of the zoekt-merge-index stand-in fails.
+	Layout *c31Layout `json:",omitempty"`
+	Fail   []bool     `json:",omitempty"`
 }
 
 func genC31(rt *rapid.T) c31Case {
 	g := kit.G{T: rt}
 	c := c31Case{Mode: "sched"}
+	if g.Bool(c31SitePct, "site") {
+		return genC31Site(g)
+	}
 	if v := g.Int(0, 99, "mode"); v >= 40 && v < 52 { // rapid favours small values: keep stress at ~12%
 		c.Mode = "stress"
 	}
@@ -124,6 +147,13 @@ type c31Harness struct {
 	inBody    map[int]bool
 	violation *kit.Discrepancy
 	maxIn     int
+
+	// site mode (nil / empty otherwise)
+	site     *c31Site
+	inCmd    map[int]*c31Inv // running runs of the zoekt-merge-index stand-in, by pid
+	invSeq   int
+	draining bool
+	cmdKinds map[string]bool
 }
 
 func (h *c31Harness) fail(kind, format string, args ...any) {
@@ -155,6 +185,9 @@ func (h *c31Harness) start(i int) *c31Worker {
 	h.workers = append(h.workers, w)
 	body := func() {
 		h.mu.Lock()
+		for _, inv := range h.inCmd {
+			h.fail("global-not-exclusive", "operation %d (%s) entered its critical section while a global operation's command was running on the index directory (%s)", i, c31OpString(w.op), inv.describe())
+		}
 		for j := range h.inBody {
 			o := h.ops[j]
 			switch {
@@ -183,7 +216,10 @@ func (h *c31Harness) start(i int) *c31Worker {
 		w.gid = c31GoID()
 		close(w.started)
 		w.startTk = h.tick.Add(1)
-		if w.op.Global {
+		if w.op.Site != "" {
+			h.site.call(w.op)
+			w.ret = true
+		} else if w.op.Global {
 			h.m.Global(body)
 			w.ret = true
 		} else {
@@ -197,6 +233,9 @@ func (h *c31Harness) start(i int) *c31Worker {
 }
 
 func c31OpString(o c31Op) string {
+	if o.Site != "" {
+		return "Server." + map[string]string{"merge": "doMerge", "vacuum": "vacuum", "delete": "DeleteAllData"}[o.Site]
+	}
 	if o.Global {
 		return "Global"
 	}
@@ -343,23 +382,97 @@ func runC31SchedOnce(rec *kit.Recorder, c c31Case, record bool) (string, error) 
 	return outcome, err
 }
 
+// c31Rel is something the harness can let go on: the body of a With/Global
+// operation or (site mode) a held run of the zoekt-merge-index stand-in.
+type c31Rel struct {
+	w   *c31Worker
+	inv *c31Inv
+}
+
+func (r c31Rel) key() int {
+	if r.inv != nil {
+		return 1 << 20 + r.inv.seq
+	}
+	return r.w.idx
+}
+
+func c31SortRels(rs []c31Rel) {
+	sort.Slice(rs, func(i, j int) bool { return rs[i].key() < rs[j].key() })
+}
+
+func (h *c31Harness) releaseRel(r c31Rel) string {
+	if r.inv != nil {
+		h.releaseInv(r.inv)
+		return "command " + r.inv.describe()
+	}
+	r.w.released = true
+	close(r.w.release)
+	return fmt.Sprintf("operation %d", r.w.idx)
+}
+
 func runC31SchedInner(rec *kit.Recorder, c c31Case, record bool) (outcome string, _ error) {
 	h := &c31Harness{m: &indexMutex{}, ops: c.Ops, inBody: map[int]bool{}}
+	if c.Mode == "site" {
+		site, err := c31OpenSite(h, c)
+		if err != nil {
+			// no sh / mkfifo on this machine: the case cannot be run
+			rec.Eval("site-unavailable", false, "mode:site", "site:unavailable")
+			rec.Set("site_unavailable", err.Error())
+			return "", nil
+		}
+		defer site.close()
+	}
 	next := 0
 	labels := map[string]bool{}
 
 	// settle waits for quiescence and checks that the system is not stuck.
-	settle := func(when string) ([]*c31Worker, error) {
-		running, parked, err := h.quiesce()
-		if err != nil {
-			return nil, err
+	settle := func(when string) ([]c31Rel, error) {
+		var running []c31Rel
+		var parked []*c31Worker
+		if h.site != nil {
+			var err error
+			running, parked, err = h.quiesceSite()
+			if err != nil {
+				return nil, err
+			}
+			h.mu.Lock()
+			v := h.violation
+			h.mu.Unlock()
+			if v != nil {
+				return nil, v
+			}
+		} else {
+			rw, p, err := h.quiesce()
+			if err != nil {
+				return nil, err
+			}
+			parked = p
+			for _, w := range rw {
+				running = append(running, c31Rel{w: w})
+			}
 		}
 		if len(running) == 0 && len(parked) > 0 {
 			return nil, kit.Fail("stuck", "%s: no critical section is occupied, yet operation %d (%s) stays blocked in the mutex", when, parked[0].idx, c31OpString(parked[0].op))
 		}
+		cmdHeld := false
+		for _, r := range running {
+			if r.inv != nil {
+				cmdHeld = true
+			}
+		}
 		seen := map[string]bool{}
 		for _, w := range parked {
-			if w.op.Global {
+			if cmdHeld {
+				labels["site:operation-waited-behind-command"] = true
+				if w.op.Site != "" || w.op.Global {
+					labels["site:global-waited-behind-command"] = true
+				} else {
+					labels["site:with-waited-behind-command"] = true
+				}
+			}
+			if w.op.Site != "" {
+				labels["site:call-site-waited"] = true
+			} else if w.op.Global {
 				labels["global:waited"] = true
 			} else {
 				labels["with:waited-behind-global"] = true
@@ -375,10 +488,13 @@ func runC31SchedInner(rec *kit.Recorder, c c31Case, record bool) (outcome string
 	// drainAll releases everything so that no goroutine outlives the case.
 	drainAll := func() {
 		for _, w := range h.workers {
-			if !w.released {
+			if !w.released && w.op.Site == "" {
 				w.released = true
 				close(w.release)
 			}
+		}
+		if h.site != nil {
+			h.drainSite()
 		}
 	}
 	defer drainAll()
@@ -400,11 +516,9 @@ func runC31SchedInner(rec *kit.Recorder, c c31Case, record bool) (outcome string
 		if len(running) == 0 {
 			return nil
 		}
-		sort.Slice(running, func(i, j int) bool { return running[i].idx < running[j].idx })
-		w := running[k%len(running)]
-		w.released = true
-		close(w.release)
-		_, err = settle(fmt.Sprintf("after releasing operation %d", w.idx))
+		c31SortRels(running)
+		what := h.releaseRel(running[k%len(running)])
+		_, err = settle("after releasing " + what)
 		return err
 	}
 	for _, s := range c.Steps {
@@ -441,14 +555,16 @@ func runC31SchedInner(rec *kit.Recorder, c c31Case, record bool) (outcome string
 		if len(running) == 0 {
 			return "", kit.Fail("stuck", "final phase: operations remain unfinished although no body is running")
 		}
-		sort.Slice(running, func(i, j int) bool { return running[i].idx < running[j].idx })
-		running[0].released = true
-		close(running[0].release)
+		c31SortRels(running)
+		h.releaseRel(running[0])
 	}
 
 	h.mu.Lock()
 	v := h.violation
 	maxIn := h.maxIn
+	for k := range h.cmdKinds {
+		labels["site:command:"+k] = true
+	}
 	h.mu.Unlock()
 	if v != nil {
 		return "", v
@@ -456,6 +572,10 @@ func runC31SchedInner(rec *kit.Recorder, c c31Case, record bool) (outcome string
 	skipped, ran, globals := 0, 0, 0
 	for _, w := range h.workers {
 		outcome += fmt.Sprintf("%d:%v ", w.idx, w.ran)
+		if w.op.Site != "" {
+			labels["site:"+w.op.Site] = true
+			continue
+		}
 		if w.op.Global {
 			globals++
 			if !w.ran {
@@ -475,7 +595,7 @@ func runC31SchedInner(rec *kit.Recorder, c c31Case, record bool) (outcome string
 		// call overlaps this call
 		justified := false
 		for _, o := range h.workers {
-			if o != w && !o.op.Global && o.op.Name == w.op.Name && o.ran && o.startTk < w.endTk && w.startTk < o.endTk {
+			if o != w && o.op.Site == "" && !o.op.Global && o.op.Name == w.op.Name && o.ran && o.startTk < w.endTk && w.startTk < o.endTk {
 				justified = true
 			}
 		}
@@ -499,7 +619,12 @@ func runC31SchedInner(rec *kit.Recorder, c c31Case, record bool) (outcome string
 		labels["with:>=3-concurrent"] = true
 	}
 	nt := skipped > 0 && (labels["global:waited"] || labels["with:waited-behind-global"])
-	ls := []string{"mode:sched"}
+	ls := []string{"mode:" + c.Mode}
+	if h.site != nil {
+		// site: some operation had to wait while a global operation's command
+		// was running on the index directory
+		nt = labels["site:operation-waited-behind-command"]
+	}
 	for l := range labels {
 		ls = append(ls, l)
 	}
@@ -510,7 +635,12 @@ func runC31SchedInner(rec *kit.Recorder, c c31Case, record bool) (outcome string
 	if record {
 		b, _ := json.Marshal(c)
 		rec.Eval(string(b), nt, ls...)
-		rec.Add("sched_operations", len(c.Ops))
+		if h.site != nil {
+			rec.Add("site_operations", len(c.Ops))
+			rec.Add("site_commands_run", h.invSeq)
+		} else {
+			rec.Add("sched_operations", len(c.Ops))
+		}
 		rec.Sample(c, nt)
 	}
 	return outcome, nil
@@ -636,6 +766,10 @@ func TestVerif_C31(t *testing.T) {
 		}
 		if c.Mode == "stress" {
 			return runC31Stress(rec, c)
+		}
+		if c.Mode == "site" {
+			_, err := runC31SchedOnce(rec, c, true)
+			return err
 		}
 		return runC31Sched(rec, c)
 	})
